@@ -144,6 +144,26 @@ def run_program(rec, ch, kind, target, T, prog, rng, ctx):
                 r = Raised(exc)
             finally:
                 target.disarm()
+        elif op == "readout":
+            # read-outs and diagnostics in between: whatever they hand out or compute, the record stays a record of (sample, its log-probability) pairs
+            def read_all():
+                L_ = int(ch.chain_length)
+                ch.get_sample(burn=0, thin=1)
+                ch.get_probabilities(burn=0, thin=1)
+                ch.get_parameter(0, burn=0, thin=1)
+                if L_ >= 3:
+                    ch.get_interval(interval=0.9, burn=0, thin=1)
+                    ch.get_interval(interval=0.5, burn=0, thin=2, samples=max(L_ // 4, 1))
+                ch.mode()
+            r = guarded(read_all) if not (kind == "ensemble" and ch.sample is None) else None
+            rec.count("readout_ops")
+        elif op == "limits":
+            # a limit request in mid-run (Gibbs / Metropolis): the new limits may or may not contain the current value; the record is not touched
+            i_ = int(rng.integers(ch.n_parameters))
+            cur_ = float(np.asarray(ch.get_last(), float)[i_])
+            a_ = cur_ + float(rng.uniform(-2, 2))
+            r = guarded(ch.set_boundaries, i_, (a_, a_ + float(rng.uniform(0.5, 3))))
+            rec.count("limit_ops_in_programs")
         elif op == "steps":
             r = guarded(lambda: [ch.take_step() for _ in range(m)])
         elif op == "advance":
@@ -189,6 +209,8 @@ def random_program(rng, kind):
         if kind == "ensemble":
             if rng.random() < 0.15:
                 prog.append(("interrupt", int(rng.integers(1, 40))))
+            if rng.random() < 0.3:
+                prog.append(("readout", 0))
             prog.append(("advance", int(rng.choice([0, 1, 3, 8]))))
         else:
             r = rng.random()
@@ -196,8 +218,13 @@ def random_program(rng, kind):
                 prog.append(("steps", int(rng.integers(1, 30))))
             elif r < 0.7:
                 prog.append(("advance", int(rng.choice([0, 1, 7, 40, 101, 130]))))
-            elif r < 0.82:
+            elif r < 0.76:
                 prog.append(("replace", 0))
+            elif r < 0.82:
+                prog.append(("readout", 0))
+                if kind in ("gibbs", "metropolis") and rng.random() < 0.6:
+                    prog.append(("limits", 0))
+                    prog.append(("steps", int(rng.integers(1, 10))))
             elif r < 0.92:
                 prog.append(("interrupt", int(rng.integers(1, 60))))
                 prog.append(("steps", int(rng.integers(2, 20))))
